@@ -45,6 +45,9 @@ fn alpha(cfg: &Cfg) -> Vec<Op> {
         v.push(c(Decstbm(a, b)));
     }
     v.push(Op::text(&"w".repeat(cfg.cols + 1)));
+    // park the cursor outside the region with origin mode on (only reachable via restore)
+    v.push(c(Seq(vec![DecSet(vec![6]), Cup(Some(99), Some(1)), Decsc, Decstbm(Some(1), Some(rows.saturating_sub(1))), Decrc])));
+    v.push(c(Seq(vec![DecSet(vec![6]), Cup(Some(1), Some(1)), Decsc, Decstbm(Some(2), Some(rows)), Decrc])));
     // setup
     for r in 1..=rows {
         v.push(c(Cup(Some(r), Some(1))));
